@@ -68,6 +68,10 @@ var frozen bool
 // instances whose bytes are then partly replaced by arbitrary ones.
 func Freeze(on bool) { frozen = on }
 
+// Symbolic reports whether the harness runs under the symbolic executor (true) or natively (false). Harnesses use it
+// only to swap a non-reflective stand-in for the real reflective implementation when replaying natively.
+func Symbolic() bool { return false }
+
 // Frozen reports whether inputs are currently frozen.
 func Frozen() bool { return frozen }
 
